@@ -23,6 +23,14 @@ Interpretation choices (soundness first):
   indentation under an ordered parent is accepted.  Numbering values are not asserted, only ordered/unordered.
   Siblings of one (sub)list share the kind; writers whose input model has one kind per list (model.List,
   layout.List) only get uniform lists.
+* Purity of rendering (MdHistory.tla): a reader is a state machine whose calls (Markdown, MarkdownWithRAGOptions
+  with heading offset/max/front matter/TOC, Text, Document; navigation-exclusion modes none/explicit/standard/
+  aggressive) must each return what a freshly opened reader returns for the same options - no call may change
+  what the reader holds.  Histories of 2-4 calls are run on ONE htmldoc.Reader, ONE tabula Extractor over an
+  HTML / DOCX / ODT file (the facade fixes the navigation mode per operation, calls it cannot express are left
+  out of the history), ONE docx.Reader and ONE odt.Reader.  Only <nav> is used as excluded content (excluded by
+  every mode but "none"); what is excluded is not asserted, only that visible elements keep their structure.
+  For Document calls the heading level of the model is the source level; for Text calls only the words.
 * Extra blocks a writer adds (document title, front matter, table of contents, separators, page references,
   sheet/slide headings) are ignored; every source word must be present in the output.
 """
@@ -36,7 +44,11 @@ EVIDENCE = dict(
          "parsed-back structure computed by Markdown.tla; each is rendered by every tabula Markdown writer that can express "
          "it and parsed back by the harness's GFM reader (itself validated on the spec's reference rendering of every case). "
          "Non-trivial = table with a special cell / merge / no header, heading with offset != 0, nested list; distinct by "
-         "case hash x writer.  Random larger documents are validated by MarkdownTrace.tla.",
+         "case hash x writer.  Random larger documents are validated by MarkdownTrace.tla.  Histories: every sequence of <= MaxLen "
+         "calls over a call alphabet (Markdown/Text/Document x navigation modes, RAG options offset x max) from MdHistoryMC, "
+         "each run on one reader object per target (htmldoc.Reader, Extractor over HTML/DOCX/ODT file, docx.Reader, odt.Reader) "
+         "and compared call by call with the fresh-reader expectation; non-trivial = >= 2 calls executed; random longer "
+         "histories validated by MdHistoryTrace.tla.",
     assumptions=["cell texts are compared up to white space (see NOTES)",
                  "list depth by the marker-indent + 2 rule; numbering values not asserted",
                  "the harness's GFM reader is trusted after agreeing with Markdown.tla's reader on every reference rendering",
@@ -147,7 +159,66 @@ def run(ctx):
                           {"event": ev, "markdown": mds[len(mds) - len(rest) + d - 1]})
             rest = rest[d:]
     ctx.extra["trace_events_by_writer"] = dict((w, len(v)) for w, v in byw.items())
+    histories(ctx, q)
     ctx.notes.append(NOTES)
+
+
+HIST_TARGETS = ["htmldoc", "htmlfile", "docx", "docxfile", "odt", "odtfile"]
+
+
+def histories(ctx, q):
+    """Purity of rendering (MdHistory.tla): histories of calls on ONE reader; every call must return what the
+    specification says a freshly opened reader returns for its options."""
+    # R1: every history up to MaxLen over the call alphabet keeps Purity / CacheFaithful; the write-back reader is refuted
+    runs = [("MdHistory_mc_quick.cfg", 8)] if q else [("MdHistory_mc_thorough.cfg", 8), ("MdHistory_mc_wide.cfg", 8)]
+    cases = []
+    for cfg, wk in runs:
+        cases += ctx.tlc("MdHistoryMC", cfg, workers=wk, collect=True, timeout=1800)["cases"]
+    ctx.tlc("MdHistoryMC", "MdHistory_mc_impl.cfg", expect_violation=True, workers=4)
+    cases = dedupe(cases)
+    if not cases:
+        raise vlib.MachineryError("MdHistoryMC emitted no histories")
+    ctx.extra["histories"] = len(cases)
+    c0 = cases[len(cases) // 3]
+    ctx.sample({"history_on_one_reader": [dict((k, c[k]) for k in ("op", "nav", "off", "mx")) for c in c0["calls"]],
+                "expected_heading_levels_per_call": [[b["level"] for b in c["exp"] if b["t"] == "heading"] for c in c0["calls"]]})
+    # R2: the histories on one htmldoc.Reader, one Extractor over an HTML/DOCX/ODT file, one docx.Reader, one odt.Reader
+    work = [dict(c, writer=w) for c in cases for w in HIST_TARGETS]
+    res = [r for r in ctx.run_driver(["c15", "history"], work) if r.get("evals")]
+    for r in res:
+        r["key"] = "hist/%s/%s" % (r.get("key"), work[r["case"]]["writer"])
+    absorb(ctx, res)
+    # R3: random longer histories with random options, validated by MdHistoryTrace.tla
+    nreq, nseg = (4, 40) if q else (16, 120)
+    rec = ctx.run_driver(["c15", "histrecord"], [{"n": nseg, "targets": HIST_TARGETS} for _ in range(nreq)])
+    events = [e for r in rec for e in r.get("events", [])]
+    if not events:
+        raise vlib.MachineryError("history record driver logged no events")
+    rest = events
+    runs = 0
+    while rest and runs < (4 if q else 12):
+        runs += 1
+        tv = ctx.validate_trace("MdHistoryTrace", "MdHistoryTrace.cfg",
+                                [dict((k, v) for k, v in e.items() if k not in ("md", "target")) for e in rest])
+        if tv["accepted"]:
+            ctx.traces_validated += sum(1 for e in rest if e["event"] == "Open")
+            ctx.evaluations += sum(1 for e in rest if e["event"] == "Call")
+            break
+        d = tv["depth"]
+        if d < 1 or d > len(rest):
+            raise vlib.MachineryError("history trace validation stopped at an impossible depth %d" % d)
+        start = max(i for i in range(d) if rest[i]["event"] == "Open")
+        ev = rest[d - 1]
+        ctx.traces_validated += sum(1 for e in rest[:start] if e["event"] == "Open")
+        before = ["%s(nav=%s,off=%s,max=%s)" % (e.get("op"), e.get("nav"), e.get("off"), e.get("mx")) for e in rest[start + 1:d - 1]]
+        ctx.violation("C15:trace-impure:%s" % rest[start].get("target"),
+                      "MdHistoryTrace rejects call %s(nav=%s, offset=%s, max=%s) on a %s reader after %s: heading levels read back %s%s"
+                      % (ev.get("op"), ev.get("nav"), ev.get("off"), ev.get("mx"), rest[start].get("target"), before,
+                         ev.get("levels"), (" error " + ev["err"]) if "err" in ev else ""),
+                      {"trace_segment": rest[start:d], "rejected_line": d})
+        nxt = [i for i in range(d, len(rest)) if rest[i]["event"] == "Open"]
+        rest = rest[nxt[0]:] if nxt else []
+    ctx.extra["history_trace_events"] = len(events)
 
 
 def replay(ctx, rp):
